@@ -214,7 +214,7 @@ class Builder:
         self.top_scopes = []
         self.cur = None  # current FileModel
         self.stats = {"homonyms": 0, "decoys": 0, "renames": 0, "only": 0, "reexport": 0, "inherited": 0, "shadow": 0, "constructs": 0,
-                      "member_chain": 0, "same_line_dups": 0, "quote_mix": 0, "unnamed_interfaces": 0, "io_end_file": 0, "rename_lists": 0, "double_names": 0, "more_constructs": 0, "external_procs": 0, "enums": 0}
+                      "member_chain": 0, "same_line_dups": 0, "quote_mix": 0, "unnamed_interfaces": 0, "io_end_file": 0, "rename_lists": 0, "double_names": 0, "more_constructs": 0, "external_procs": 0, "enums": 0, "interface_bodies": 0}
         self.construct_id = 0
         self.loopvars = []
         self.scope_stack = []
@@ -764,6 +764,29 @@ class Builder:
             self.pop()
             self.emit("end interface", kind="close-interface", depth=depth)
             self.stats["unnamed_interfaces"] += 1
+        if self.d_bool(3):
+            # explicit interface of an external procedure: the interface body declares a callable entity of the module
+            # (PUBLIC / PRIVATE like any other), the procedure itself lives elsewhere (never generated)
+            xn = self.name_for(sc, allow_homonym=False, prefix="xi_")
+            xp = self.new_ent(xn, "subroutine", sc, vis=self.vis_attr(sc, True))
+            xp.attrs["interface_body"] = True
+            xp.attrs["body_done"] = True  # callable from everywhere, also inside this module
+            sc.declared[xn.lower()] = xp
+            xsc = Scope("interface-body", xp, None)
+            xp.inner = xsc
+            dn = self.fresh(avoid={xn.lower()})
+            d = self.new_ent(dn, "dummy", xsc, typ=T_INT, writable=False)
+            xsc.declared[dn.lower()] = d
+            xp.dummies.append(d)
+            self.emit("interface", kind="open-interface", depth=depth)
+            self.push(xsc)
+            self.emit("subroutine ", Ref(xp, "decl"), "(", Ref(d, "use", d.name), ")", kind="open-proto", depth=depth + 1)
+            self.emit(f"{T_INT}, intent(in) :: ", Ref(d, "decl"), kind="decl", depth=depth + 2)
+            self.emit("end subroutine ", Ref(xp, "endname"), kind="close-proto", depth=depth + 1)
+            self.pop()
+            self.emit("end interface", kind="close-interface", depth=depth)
+            self.stats["unnamed_interfaces"] += 1
+            self.stats["interface_bodies"] += 1
 
     def gen_proc_body(self, p, depth, allow_internal=True, unit=False):
         psc = p.inner
@@ -1160,6 +1183,8 @@ class Layout:
     trailing_comments: bool = True
     split_every: int = 0  # split every n-th splittable statement with '&'
     lead_amp: bool = False
+    label_every: int = 0  # free form: every n-th executable / END-of-construct statement carries a numeric statement label
+    labelled_do: bool = False  # free form: every other unnamed DO construct is written 'do 110 i = ...' / '110 continue'
     split_pos: int = 0  # 0: break a statement in the middle; k > 0: after its (1 + (k-1) mod (n-1))-th piece, e.g. right after the keyword
     amp_tight: bool = False  # with lead_amp: the text follows the leading '&' directly ('&name' instead of '& name')
     cont_col1: bool = False  # without lead_amp: the continuation line starts in column 1
@@ -1188,6 +1213,8 @@ layout_st = st.builds(
     lead_amp=st.booleans(),
     amp_tight=st.booleans(),
     split_pos=st.sampled_from([0, 0, 1, 1, 2, 3, 5]),
+    label_every=st.sampled_from([0, 0, 0, 2, 3, 5]),
+    labelled_do=st.sampled_from([False, False, True]),
     cont_col1=st.booleans(),
     join_every=st.sampled_from([0, 0, 2, 3]),
     space_end=st.sampled_from([" ", " ", "  "]),
@@ -1356,9 +1383,11 @@ def render(prog: Program, layout: Layout = PLAIN, suffix=None) -> Rendered:
         pending_join = None
         i = 0
         stmts = f.stmts
+        next_label, ndo, nlab, do_labels = 100, 0, 0, {}
         while i < len(stmts):
             s = stmts[i]
             nst += 1
+            stmt_label = None
             if layout.blank_every and nst % layout.blank_every == 0:
                 lines.append("")
             if layout.comment_every and nst % layout.comment_every == 0:
@@ -1374,6 +1403,21 @@ def render(prog: Program, layout: Layout = PLAIN, suffix=None) -> Rendered:
                     toks = [toks[0].rstrip()] if s.kind != "close-construct" else toks
                 elif style == "joined":
                     toks = ["end" + toks[0][4:]] + list(toks[1:])
+            # statement labels (free form allows them as well): labelled DO ... CONTINUE, labels on END DO / END IF / ...
+            if layout.labelled_do and s.kind == "open-construct" and toks and toks[0] == "do ":
+                ndo += 1
+                if ndo % 2 == 1:
+                    next_label += 10
+                    do_labels[s.opens] = next_label
+                    toks = [f"do {next_label} "] + list(toks[1:])
+            elif s.kind == "close-construct" and s.closes in do_labels:
+                stmt_label = do_labels.pop(s.closes)
+                toks = ["continue"]
+            elif layout.label_every and s.kind in ("exec", "close-construct"):
+                nlab += 1
+                if nlab % layout.label_every == 0:
+                    next_label += 10
+                    stmt_label = next_label
             for ti, t in enumerate(toks):
                 if isinstance(t, Ref):
                     t._ti = ti
@@ -1393,7 +1437,7 @@ def render(prog: Program, layout: Layout = PLAIN, suffix=None) -> Rendered:
                 nsplit += 1
                 do_split = nsplit % layout.split_every == 0
             first_line = len(lines)
-            cur = ind
+            cur = ind + (f"{stmt_label} " if stmt_label is not None else "")
             if do_split:
                 k = max(1, len(pieces) // 2) if not layout.split_pos else 1 + (layout.split_pos - 1) % (len(pieces) - 1)
                 # never split inside a character literal piece (pieces are atomic anyway)
